@@ -51,7 +51,8 @@ class G:
         return self.draw(st.integers(lo, hi))
 
     def pick(self, xs):
-        return self.draw(st.sampled_from(xs))
+        xs = list(xs)
+        return xs[self.draw(st.sampled_from(range(len(xs))))]
 
     def tag(self):
         self.n += 1
